@@ -323,11 +323,14 @@ func (in *sysInst) launch(bin string, o sysConfOpts) (err error) {
 			// The routes of the DNS, filtering, DHCP, statistics and
 			// query-log modules are registered a moment after the status
 			// route answers; wait for them as well (bounded).
-			late := []string{"/control/filtering/status", "/control/dhcp/status", "/control/stats", "/control/querylog?limit=1", "/control/clients", "/control/dns_info"}
-			for w := 0; w < 400; w++ {
+			// (Not the query log: reading it opens its file, which one phase
+			// replaces by a FIFO without a writer.)
+			late := []string{"/control/filtering/status", "/control/dhcp/status", "/control/stats_info", "/control/clients", "/control/dns_info"}
+			lateDeadline := time.Now().Add(15 * time.Second)
+			for time.Now().Before(lateDeadline) {
 				all := true
 				for _, p := range late {
-					if st2, _, e2 := in.API("GET", p, nil); e2 != nil || st2 == 404 {
+					if st2, _, e2 := in.APITimeout("GET", p, nil, 3*time.Second); e2 != nil || st2 == 404 {
 						all = false
 
 						break
